@@ -357,9 +357,11 @@ def _r_ptp(ck, world, table) -> None:
                       'the index array is passed to jnp.unique as is: a negative entry and its non-negative alias (-1 and n-1) are counted as two distinct '
                       'positions and scattered with unique_indices=True, so the multiplicity diagonal of P^T P is wrong for indices that mix both forms', instance='negative aliases')
             add_ok = cov is not None and '.add' in cov_s and 'item' in repr(cov) or (cov is not None and cov[0] == 'call' and cov[1][0] == 'attr' and cov[1][2] == 'add')
-            good = struct_ok and axis_ok and uniq_ok and size_ok and add_ok
-            why = f'structure ok={struct_ok}, axis ok={axis_ok}, unique(index along that axis, return_counts) ok={uniq_ok}, size along that axis ok={size_ok}, accumulation by add ok={add_ok}'
-        ck.expect('R-PTP', good, fn, 'diagonal of multiplicities built on right.in_structure(), along the axis that selected index and size, counts accumulated with .add',
+            ck.expect('R-PTP', struct_ok and axis_ok, fn, 'the diagonal lives on right.in_structure(), its values placed along the indexed axis',
+                      f'the diagonal replacing P^T P is not built on the input structure of P along the indexed axis: structure ok={struct_ok}, axis ok={axis_ok}', instance='diagonal placement')
+            good = uniq_ok and size_ok and add_ok
+            why = f'unique(index along that axis, return_counts) ok={uniq_ok}, size along that axis ok={size_ok}, accumulation by add ok={add_ok}'
+        ck.expect('R-PTP', good, fn, 'multiplicities = counts of the distinct positions along the indexed axis (size = the length of that axis), accumulated with .add',
                   f'the P^T P rewrite does not build the multiplicity diagonal consistently: {why}', instance='multiplicity diagonal')
 
 
